@@ -340,6 +340,23 @@ func c17Run(c *engine.Ctx) {
 								if msg != "" {
 									c.Violation(key, "json-position", map[string]any{"kind": kind, "nl": nl, "size": size, "pre": pre, "p": p, "repl": int(repl), "transport": ti, "why": msg, "stderr": head(r.Stderr, 300)})
 								}
+								// the same stream read token by token (--stream): the same offending byte
+								if want >= 0 && (ti < 2 || !quick) && (p%4 == 0 || !quick) {
+									c.Eval()
+									rs := c17RunInput([]string{"--stream", "-c", "."}, text, tr, dir, c.Shard)
+									smsg := ""
+									switch {
+									case rs.Panic != "":
+										smsg = "panic: " + rs.Panic
+									case rs.Status != 5:
+										smsg = fmt.Sprintf("status %d for a malformed stream", rs.Status)
+									default:
+										smsg = c17CheckReport(text, want, rs.Stderr)
+									}
+									if smsg != "" {
+										c.Violation(key+" --stream", "json-position", map[string]any{"kind": kind, "nl": nl, "size": size, "pre": pre, "p": p, "repl": int(repl), "transport": ti, "stream": true, "why": smsg, "stderr": head(rs.Stderr, 300)})
+									}
+								}
 							}
 							c.DistinctN(1)
 						}
@@ -506,7 +523,11 @@ func c17Replay(v *engine.Violation) (bool, string) {
 		b[p] = byte(int(d["repl"].(float64)))
 		text := prefix.String() + string(b)
 		want := c17FirstError(text)
-		r := c17RunInput([]string{"-c", "."}, text, c17Transports[int(d["transport"].(float64))], workDir, 99)
+		args := []string{"-c", "."}
+		if st, _ := d["stream"].(bool); st {
+			args = []string{"--stream", "-c", "."}
+		}
+		r := c17RunInput(args, text, c17Transports[int(d["transport"].(float64))], workDir, 99)
 		if want < 0 {
 			return r.Status != 0, "well-formed"
 		}
@@ -523,7 +544,7 @@ func init() {
 	engine.Register(&engine.Check{
 		ID:    "C17",
 		Level: "fault_enumeration",
-		Rule: "well-formed multi-line documents of 3 kinds (one scalar per line; nested objects with multi-byte and double-width characters; lines longer than the excerpt window) x sizes {40 B, 500 B, 4 KiB, 16 KiB-1/+0/+1, 40 KiB, thorough 70 KiB} x line terminators {LF, CRLF, CR} x 0..3 preceding valid documents (3/9/14 KB, so the 16 KiB window reset falls before, inside and after the faulty document) are corrupted by replacing ONE byte (by ? and by 0xFF) at EVERY byte for small documents and at every byte within +-70 of each multiple of 4096 and 16384, +-6 of each multiple of 512 and the first/last 80 bytes otherwise; each corrupted stream goes through 8 transports (regular file; pipe delivered whole and in chunks of 1, 7, 512, 4096, 16384, 16385). " +
+		Rule: "well-formed multi-line documents of 3 kinds (one scalar per line; nested objects with multi-byte and double-width characters; lines longer than the excerpt window) x sizes {40 B, 500 B, 4 KiB, 16 KiB-1/+0/+1, 40 KiB, thorough 70 KiB} x line terminators {LF, CRLF, CR} x 0..3 preceding valid documents (3/9/14 KB, so the 16 KiB window reset falls before, inside and after the faulty document) are corrupted by replacing ONE byte (by ? and by 0xFF) at EVERY byte for small documents and at every byte within +-70 of each multiple of 4096 and 16384, +-6 of each multiple of 512 and the first/last 80 bytes otherwise; each corrupted stream goes through 8 transports (regular file; pipe delivered whole and in chunks of 1, 7, 512, 4096, 16384, 16385), as values and again token by token under --stream (quick: a quarter of the positions, file and whole-pipe transports). " +
 			"The absolute offset of the offending byte comes from encoding/json run by the harness on the same bytes; the reported line must be its 1-based line (LF, CRLF, CR), the quoted text a piece of that line covering it, and the caret under it in terminal columns (go-runewidth). Truncations under default/--stream/-s/--slurpfile; query errors: 47 offending token kinds x 15 contexts x 4 continuations, as argument and -f file, checked for ParseError Offset/Token and the caret.",
 		Assume:         []string{"encoding/json's SyntaxError.Offset on the harness's own decode of the same bytes locates the offending byte; go-runewidth gives terminal widths"},
 		Run:            c17Run,
